@@ -440,6 +440,16 @@ func runAgent(sc agentScript) (obs agentObs) {
 							time.Sleep(time.Duration(crng.Intn(3)) * time.Millisecond)
 						}
 					}
+					if c%2 == 0 {
+						// the connection ends on a line that is not a record, after a pause longer than one flush interval: nothing
+						// follows that could carry its count along
+						w.Flush()
+						time.Sleep(time.Duration(defs.InputFlushInterval) + 60*time.Millisecond)
+						fmt.Fprintf(w, "<14>1 bad-record-at-the-end-of-connection-%d-of-generation-%d\n", c, g)
+						mu.Lock()
+						obs.malformed++
+						mu.Unlock()
+					}
 					w.Flush()
 				}(c)
 			}
